@@ -41,10 +41,12 @@ example : Gen.FactsC08.putSetsIsDirty = true ∧ Gen.FactsC08.deleteMarksIsDelet
 raises its dirty flag (or re-Puts it) — the syntactic side of `C08_mutation_dirty` -/
 example : ∀ m ∈ Gen.FactsC08.inPlaceMutations, m.setsDirty = true := by decide
 
-/-- persisted parameters: what the flush functions put, the constructors get -/
-example : Gen.FactsC08.vamanaFlushPutsMaxNodeId = true ∧ Gen.FactsC08.vamanaNewGetsMaxNodeId = true ∧
-    Gen.FactsC08.textFlushPutsNumDocuments = true ∧ Gen.FactsC08.textInitGetsNumDocuments = true ∧
-    binaryFlushPutsThreshold = true ∧ binaryNewGetsThreshold = true ∧
+/-- persisted parameters of the *cached* index objects: what the flush functions put, the
+constructors get.  (`_vamanaMaxNodeId` and `_numDocuments` are extracted too but deliberately not
+pinned: the former only sizes the visited-set of a graph search — a bitset that grows on demand —
+and the text index is re-created from the bucket for every request, so it has no state that could
+diverge from the committed bucket; whether `_numDocuments` is right is C05's question.) -/
+example : binaryFlushPutsThreshold = true ∧ binaryNewGetsThreshold = true ∧
     productFlushPutsCentroids = true ∧ productNewGetsCentroids = true := by decide
 
 /-! ### the invariant -/
